@@ -28,9 +28,11 @@ import (
 	"sort"
 	"strings"
 	"sync"
+	"sync/atomic"
 	"time"
 
 	"go.opentelemetry.io/otel"
+	"go.opentelemetry.io/otel/attribute"
 	"go.opentelemetry.io/otel/metric"
 	"go.opentelemetry.io/otel/propagation"
 	sdkmetric "go.opentelemetry.io/otel/sdk/metric"
@@ -58,6 +60,12 @@ type Proc struct {
 	// creator / registrar / tuser: go through a reference to the default provider kept from before
 	// anything was installed, instead of a fresh Get
 	Kept bool `json:"kept,omitempty"`
+	// creator / registrar / tuser: Meter() / Tracer() is called with this many instrumentation-scope attributes, so
+	// that the config computation inside internal/global takes tens of milliseconds (widens windows that have no
+	// call-out and therefore no gate)
+	Slow int `json:"slow,omitempty"`
+	// wait this long after the common start before the first operation (no random jitter then)
+	DelayUs int `json:"delayUs,omitempty"`
 }
 
 type Scenario struct {
@@ -67,6 +75,9 @@ type Scenario struct {
 	Perturb float64  `json:"perturb"`
 	Procs   []Proc   `json:"procs"`
 	BoundMs int      `json:"boundMs,omitempty"`
+	// scripted faults of the delegate SDK: its RegisterCallback / instrument constructors refuse these names
+	RefuseReg  []string `json:"refuseReg,omitempty"`
+	RefuseInst []string `json:"refuseInst,omitempty"`
 }
 
 var syncKinds = []string{"i64counter", "i64updown", "i64hist", "i64gauge", "f64counter", "f64updown", "f64hist", "f64gauge"}
@@ -104,26 +115,26 @@ func newSync(m metric.Meter, kind, name string) (recorder, error) {
 }
 
 // newObs creates an observable instrument and returns the callback body that observes 1 on it.
-func newObs(m metric.Meter, kind, name string) (metric.Observable, func(metric.Observer), error) {
+func newObs(m metric.Meter, kind, name string) (metric.Observable, func(metric.Observer, int64), error) {
 	switch kind {
 	case "i64oupdown":
 		i, err := m.Int64ObservableUpDownCounter(name)
-		return i, func(o metric.Observer) { o.ObserveInt64(i, 1) }, err
+		return i, func(o metric.Observer, v int64) { o.ObserveInt64(i, v) }, err
 	case "i64ogauge":
 		i, err := m.Int64ObservableGauge(name)
-		return i, func(o metric.Observer) { o.ObserveInt64(i, 1) }, err
+		return i, func(o metric.Observer, v int64) { o.ObserveInt64(i, v) }, err
 	case "f64ocounter":
 		i, err := m.Float64ObservableCounter(name)
-		return i, func(o metric.Observer) { o.ObserveFloat64(i, 1) }, err
+		return i, func(o metric.Observer, v int64) { o.ObserveFloat64(i, float64(v)) }, err
 	case "f64oupdown":
 		i, err := m.Float64ObservableUpDownCounter(name)
-		return i, func(o metric.Observer) { o.ObserveFloat64(i, 1) }, err
+		return i, func(o metric.Observer, v int64) { o.ObserveFloat64(i, float64(v)) }, err
 	case "f64ogauge":
 		i, err := m.Float64ObservableGauge(name)
-		return i, func(o metric.Observer) { o.ObserveFloat64(i, 1) }, err
+		return i, func(o metric.Observer, v int64) { o.ObserveFloat64(i, float64(v)) }, err
 	default:
 		i, err := m.Int64ObservableCounter(name)
-		return i, func(o metric.Observer) { o.ObserveInt64(i, 1) }, err
+		return i, func(o metric.Observer, v int64) { o.ObserveInt64(i, v) }, err
 	}
 }
 
@@ -134,6 +145,11 @@ type child struct {
 	sched *gsched
 	ids   []string // the two real SDKs
 	rd    map[string]*sdkmetric.ManualReader
+	rd2   map[string]*sdkmetric.ManualReader // a second reader per SDK: collector processes overlap their collections
+	mopts map[string][]metric.MeterOption    // slow options, built before the common start
+	topts map[string][]trace.TracerOption
+	core  chan struct{} // closed when every process except the invokers has finished
+	nval  int64         // observation values: unique per (invocation, k)
 	wmp   map[string]*wMP
 	wtp   map[string]*wTP
 	dmp   metric.MeterProvider // the default (delegating) providers, kept from before anything was installed
@@ -194,7 +210,7 @@ func (c *child) getMeter(p Proc, proc string, gate func(string)) (metric.Meter, 
 	via := valName(mp)
 	f := map[string]any{"kind": "mp", "what": "meter", "obj": p.Meter, "proc": proc, "via": via}
 	c.call("Obj", f)
-	m := mp.Meter(p.Meter)
+	m := mp.Meter(p.Meter, c.mopts[p.Name]...)
 	c.ret("Obj", f)
 	return m, via
 }
@@ -205,6 +221,9 @@ func (c *child) mkSync(p Proc, m metric.Meter, via, proc string, gate func(strin
 	r, err := newSync(m, p.IKind, p.Name)
 	f["err"] = errS(err)
 	c.ret("Obj", f)
+	if err != nil { // the SDK refused the instrument and the caller was told: nothing to use
+		return nil
+	}
 	c.setVia(p.Name, via)
 	c.mu.Lock()
 	c.recs[p.Name] = r
@@ -218,18 +237,37 @@ func (c *child) use(kind, id, obj, via, proc string, f func(ctx context.Context)
 	c.ret("Use", ev)
 }
 func (c *child) register(p Proc, m metric.Meter, via string, gate func(string)) {
+	defer close(c.regCh[p.Name])
 	gate("inst")
 	f := map[string]any{"kind": "mp", "what": "inst", "obj": p.Name, "proc": p.Name, "ikind": p.IKind, "via": via}
 	c.call("Obj", f)
 	inst, observe, err := newObs(m, p.IKind, p.Name)
 	f["err"] = errS(err)
 	c.ret("Obj", f)
+	if err != nil {
+		return
+	}
 	gate("register")
 	g := map[string]any{"cb": p.Name, "proc": p.Name, "via": via}
 	c.call("Register", g)
-	reg, err := m.RegisterCallback(func(_ context.Context, o metric.Observer) error {
-		c.emit(map[string]any{"ev": "SdkCbInvoked", "cb": p.Name})
-		observe(o)
+	reg, err := m.RegisterCallback(func(ctx context.Context, o metric.Observer) error {
+		inv := idOf(ctx)
+		if !strings.HasPrefix(inv, "inv:") { // a collection of the real SDK
+			c.emit(map[string]any{"ev": "SdkCbInvoked", "cb": p.Name})
+			observe(o, 1)
+			return nil
+		}
+		// invoked by the harness with a recording Observer of its own: two observations with a gate in front of
+		// each (the user callback is a natural gate), so that invocations of one callback can be interleaved
+		proc := c.sched.me()
+		for k := 1; k <= 2; k++ {
+			c.sched.gate(proc, fmt.Sprintf("obs:%d", k))
+			v := atomic.AddInt64(&c.nval, 1)
+			e := map[string]any{"ev": "ObsCall", "cb": p.Name, "inv": inv, "val": v}
+			c.emit(e)
+			observe(o, v)
+			c.emit(map[string]any{"ev": "ObsRet", "cb": p.Name, "inv": inv, "val": v})
+		}
 		return nil
 	}, inst)
 	g["err"] = errS(err)
@@ -237,7 +275,6 @@ func (c *child) register(p Proc, m metric.Meter, via string, gate func(string)) 
 	c.mu.Lock()
 	c.regs[p.Name] = reg
 	c.mu.Unlock()
-	close(c.regCh[p.Name])
 }
 func (c *child) unregister(cb, proc string) {
 	c.mu.Lock()
@@ -267,7 +304,7 @@ func (c *child) getTracer(p Proc, gate func(string)) trace.Tracer {
 	via := valName(tp)
 	f := map[string]any{"kind": "tp", "what": "tracer", "obj": p.Tracer, "proc": p.Name, "via": via}
 	c.call("Obj", f)
-	t := tp.Tracer(p.Tracer)
+	t := tp.Tracer(p.Tracer, c.topts[p.Name]...)
 	c.ret("Obj", f)
 	c.setVia("t:"+p.Name, via)
 	c.mu.Lock()
@@ -307,7 +344,9 @@ func (c *child) xget(kind, proc string) (propagation.TextMapPropagator, otel.Err
 }
 
 // collect reads both SDKs' readers (one logical collection).
-func (c *child) collect(final bool, proc string) {
+func (c *child) collect(final bool, proc string) { c.collectFrom(final, proc, c.rd) }
+
+func (c *child) collectFrom(final bool, proc string, rds map[string]*sdkmetric.ManualReader) {
 	f := map[string]any{"final": final, "proc": proc}
 	c.call("Collect", f)
 	points := []string{}
@@ -315,7 +354,7 @@ func (c *child) collect(final bool, proc string) {
 	errs := ""
 	for _, sdk := range c.ids {
 		var rm metricdata.ResourceMetrics
-		if err := c.rd[sdk].Collect(context.Background(), &rm); err != nil {
+		if err := rds[sdk].Collect(context.Background(), &rm); err != nil {
 			errs += err.Error() + ";"
 		}
 		for _, sm := range rm.ScopeMetrics {
@@ -392,7 +431,7 @@ func deadlockProof(dump string, unfinished map[int64]string) (proven bool, sites
 		}
 		if !parked {
 			infra := strings.Contains(blk, "main.runChild") && !strings.Contains(blk, "main.(*child).runProc") ||
-				strings.HasPrefix(st, "chan receive") && strings.Contains(blk, "main.(*child).runProc")
+				(strings.HasPrefix(st, "chan receive") || strings.HasPrefix(st, "select")) && strings.Contains(blk, "main.(*child).runProc")
 			if mine || !infra {
 				proven = false
 			}
@@ -439,15 +478,50 @@ func runChild(sc Scenario, out string) {
 		regCh: map[string]chan struct{}{}, trs: map[string]trace.Tracer{},
 		props: map[string]propagation.TextMapPropagator{}, ehs: map[string]otel.ErrorHandler{}}
 	c.sched = newSched(sc.Script, sc.Seed+7, sc.Perturb)
-	c.h = &H{emit: c.emit, sched: c.sched, obs: map[any]string{}}
+	c.h = &H{emit: c.emit, sched: c.sched, obs: map[any]string{}, refuseReg: map[string]bool{}, refuseInst: map[string]bool{},
+		kindOf: map[string]string{}, cbs: map[string]metric.Callback{}, cbCh: map[string]chan struct{}{}}
+	for _, n := range sc.RefuseReg {
+		c.h.refuseReg[n] = true
+	}
+	for _, n := range sc.RefuseInst {
+		c.h.refuseInst[n] = true
+	}
+	c.mopts, c.topts, c.core = map[string][]metric.MeterOption{}, map[string][]trace.TracerOption{}, make(chan struct{})
+	watch := len(sc.RefuseReg)+len(sc.RefuseInst) > 0
+	for _, p := range sc.Procs {
+		c.h.kindOf[p.Name] = p.Kind
+		if p.Kind == "registrar" {
+			c.h.cbCh[p.Name] = make(chan struct{})
+		}
+		if p.X == "eh" {
+			watch = false
+		}
+		if p.Slow > 0 {
+			kv := make([]attribute.KeyValue, p.Slow)
+			for i := range kv {
+				kv[i] = attribute.Int(fmt.Sprintf("k%06d", (i*7919)%p.Slow), i)
+			}
+			c.mopts[p.Name] = []metric.MeterOption{metric.WithInstrumentationAttributes(kv...)}
+			c.topts[p.Name] = []trace.TracerOption{trace.WithInstrumentationAttributes(kv...)}
+		}
+	}
 	c.ids = []string{"r1", "r2"}
 	c.rd, c.wmp, c.wtp, c.via = map[string]*sdkmetric.ManualReader{}, map[string]*wMP{}, map[string]*wTP{}, map[string]string{}
+	c.rd2 = map[string]*sdkmetric.ManualReader{}
 	for _, id := range c.ids {
-		c.rd[id] = sdkmetric.NewManualReader()
-		c.wmp[id] = &wMP{real: sdkmetric.NewMeterProvider(sdkmetric.WithReader(c.rd[id])), h: c.h, id: id}
+		c.rd[id], c.rd2[id] = sdkmetric.NewManualReader(), sdkmetric.NewManualReader()
+		c.wmp[id] = &wMP{real: sdkmetric.NewMeterProvider(sdkmetric.WithReader(c.rd[id]), sdkmetric.WithReader(c.rd2[id])), h: c.h, id: id}
 		c.wtp[id] = &wTP{real: sdktrace.NewTracerProvider(), h: c.h, id: id}
 	}
 	c.dmp, c.dtp = otel.GetMeterProvider(), otel.GetTracerProvider()
+	if watch {
+		// faults are scripted and nobody else uses the error handler: install a recording one (internal/global reports
+		// what the delegate refuses during the hand-over to the global error handler)
+		otel.SetErrorHandler(otel.ErrorHandlerFunc(func(err error) {
+			c.emit(map[string]any{"ev": "Handled", "msg": errS(err)})
+		}))
+		c.emit(map[string]any{"ev": "Watch"})
+	}
 	c.sched.register("main")
 	c.emit(map[string]any{"ev": "Cfg", "name": sc.Name})
 	rng := rand.New(rand.NewSource(sc.Seed))
@@ -474,13 +548,16 @@ func runChild(sc Scenario, out string) {
 		}
 	}
 	// ---- concurrent phase
-	var wg sync.WaitGroup
+	var wg, coreWG sync.WaitGroup
 	c.unf = map[int64]string{}
 	started := make(chan struct{})
 	for _, p := range sc.Procs {
 		p := p
 		r := rand.New(rand.NewSource(rng.Int63()))
 		wg.Add(1)
+		if p.Kind != "invoker" {
+			coreWG.Add(1)
+		}
 		ready := make(chan struct{})
 		go func() {
 			id := goid()
@@ -490,6 +567,9 @@ func runChild(sc Scenario, out string) {
 			c.sched.register(p.Name)
 			close(ready)
 			defer wg.Done()
+			if p.Kind != "invoker" {
+				defer coreWG.Done()
+			}
 			defer func() {
 				if x := recover(); x != nil {
 					st := string(debug.Stack())
@@ -510,6 +590,7 @@ func runChild(sc Scenario, out string) {
 	close(started)
 	done := make(chan struct{})
 	go func() { wg.Wait(); close(done) }()
+	go func() { coreWG.Wait(); close(c.core) }()
 	bound := time.Duration(sc.BoundMs) * time.Millisecond
 	if bound == 0 {
 		bound = 30 * time.Second
@@ -535,10 +616,15 @@ loop:
 			proven, sites, blocked := deadlockProof(string(buf), u)
 			sig := fmt.Sprint(proven, sites, blocked)
 			expired := time.Since(t0) > bound
-			if (proven && sig == prevSig) || expired { // two consecutive identical proofs, or out of time
+			looping := atomic.LoadInt64(&c.h.looping) > 0         // the hand-over keeps re-submitting a refused item (recorded as such)
+			if (proven && sig == prevSig) || expired || looping { // two consecutive identical proofs, or out of time
 				quiescent = false
 				os.WriteFile(out+".dump", buf, 0o644)
-				c.emit(map[string]any{"ev": "Timeout", "proven": proven && sig == prevSig, "sites": sites, "blocked": blocked})
+				reason := "bound"
+				if looping {
+					reason = "resubmission-loop"
+				}
+				c.emit(map[string]any{"ev": "Timeout", "proven": proven && sig == prevSig, "sites": sites, "blocked": blocked, "reason": reason})
 				break loop
 			}
 			prevSig = sig
@@ -556,13 +642,38 @@ loop:
 }
 
 func (c *child) runProc(p Proc, r *rand.Rand) {
+	if p.DelayUs > 0 {
+		time.Sleep(time.Duration(p.DelayUs) * time.Microsecond)
+	}
 	gate := func(point string) {
-		if c.sc.Script == nil {
+		if c.sc.Script == nil && p.DelayUs == 0 && p.Slow == 0 {
 			if d := r.Intn(400); d > 0 {
 				time.Sleep(time.Duration(d) * time.Microsecond)
 			}
 		}
 		c.sched.gate(p.Name, point)
+	}
+	// waiting for another harness process is not "unfinished" for the deadlock proof: if that process is blocked, this
+	// one waits for it, not for a lock
+	waitFor := func(ch <-chan struct{}, alt <-chan struct{}) bool {
+		id := goid()
+		c.lmu.Lock()
+		delete(c.unf, id)
+		c.lmu.Unlock()
+		ok := true
+		select {
+		case <-ch:
+		case <-alt:
+			select {
+			case <-ch:
+			default:
+				ok = false
+			}
+		}
+		c.lmu.Lock()
+		c.unf[id] = p.Name
+		c.lmu.Unlock()
+		return ok
 	}
 	n := p.N
 	switch p.Kind {
@@ -633,6 +744,9 @@ func (c *child) runProc(p Proc, r *rand.Rand) {
 			m, via := c.getMeter(p, p.Name, gate)
 			rec = c.mkSync(p, m, via, p.Name, gate)
 		}
+		if rec == nil {
+			return
+		}
 		for k := 1; k <= n; k++ {
 			gate(fmt.Sprintf("rec:%d", k))
 			c.use("mp", fmt.Sprintf("%s:%d", p.Name, k), p.Name, c.viaOf(p.Name), p.Name, rec)
@@ -647,22 +761,35 @@ func (c *child) runProc(p Proc, r *rand.Rand) {
 			c.unregister(p.Name, p.Name)
 		}
 	case "unregistrar":
-		// waiting for another harness process is not "unfinished" for the deadlock proof: if that process is
-		// blocked, this one waits for it, not for a lock
-		id := goid()
-		c.lmu.Lock()
-		delete(c.unf, id)
-		c.lmu.Unlock()
-		<-c.regCh[p.Target]
-		c.lmu.Lock()
-		c.unf[id] = p.Name
-		c.lmu.Unlock()
+		waitFor(c.regCh[p.Target], nil)
 		gate("unreg")
 		c.unregister(p.Target, p.Name)
+	case "invoker":
+		// invokes the function internal/global registered with the SDK for callback Target, as an SDK may: concurrently
+		// with other invocations, each with an Observer of its own
+		if !waitFor(c.h.cbCh[p.Target], c.core) {
+			return // never registered with an SDK (no installation / refused / unregistered before)
+		}
+		c.h.mu.Lock()
+		f := c.h.cbs[p.Target]
+		c.h.mu.Unlock()
+		for k := 1; k <= n; k++ {
+			gate(fmt.Sprintf("invoke:%d", k))
+			inv := fmt.Sprintf("inv:%s:%d", p.Name, k)
+			e := map[string]any{"cb": p.Target, "inv": inv, "proc": p.Name}
+			c.call("Invoke", e)
+			err := f(withID(inv), &recObs{h: c.h, inv: inv})
+			e["err"] = errS(err)
+			c.ret("Invoke", e)
+		}
 	case "collector":
 		for k := 1; k <= n; k++ {
 			gate(fmt.Sprintf("collect:%d", k))
-			c.collect(false, p.Name)
+			if (k+len(p.Name))%2 == 0 {
+				c.collectFrom(false, p.Name, c.rd2)
+			} else {
+				c.collect(false, p.Name)
+			}
 		}
 	case "tuser":
 		c.mu.Lock()
